@@ -5,11 +5,16 @@
    restated over the byte list: io.ReadFull takes bytes off the front, the prefix is decoded with
    binary.BigEndian.Uint32, proto.Unmarshal is an ARBITRARY function of the bytes read
    ([parse_hdr], [parse_blob]: section variables, so every statement holds for all of them).
+   [parse_blob] is also given the block type of the BlobHeader just read: it stands for
+   proto.Unmarshal of the Blob AND for what the payload decodes to, and the code chooses the
+   payload decoder (decodeOSMHeader / dataDecoder.Decode) by that type, not by the content.
    A cut at byte offset k is [firstn k bytes].
 
    Main results: [bytes_refine] — on every prefix of the concatenation of aligned byte frames the
    byte-level scan equals the frame-level scan with [avail = k]; [truncation_bytes] — property C06's
-   first sentence literally "for every byte offset of the file". *)
+   first sentence literally "for every byte offset of the file"; [b_scan_total] — on EVERY byte
+   string (no alignment, no validity: lying prefixes, stray bytes, garbage) the scan of the current
+   code ends with Done or Failed: never a crash, a hang or an outcome outside the model. *)
 From Coq Require Import ZArith List Bool Lia.
 From Verif Require Import Framing.Model Framing.Valid Framing.Proofs.
 Import ListNotations.
@@ -35,7 +40,8 @@ Proof. reflexivity. Qed.
 Section Bytes.
 Context {T : Type}.
 Variable parse_hdr : list Z -> hdr.          (* proto.Unmarshal(buf, &BlobHeader{}) *)
-Variable parse_blob : list Z -> blobp T.     (* proto.Unmarshal(buf, &Blob{}) and what the blob holds *)
+Variable parse_blob : btype -> list Z -> blobp T.  (* proto.Unmarshal(buf, &Blob{}) and what the payload
+                                                    decodes to under the decoder chosen by the type *)
 
 (* io.ReadFull(r, buf[:n]) on the remaining bytes s: the bytes read and the rest, or the error *)
 Definition bread (n : Z) (s : list Z) : rerr + (list Z * list Z) :=
@@ -68,7 +74,7 @@ Definition b_read_file_block (v : variant) (s : list Z) : bfb :=
         match bread ds s2 with
         | inl e => BErr (inner_err v e)
         | inr (bb, s3) =>
-          match parse_blob bb with
+          match parse_blob ty bb with
           | BlobBad => BErr EOther
           | BlobOk b => BOk ty b s3 (4 + size + ds)
           end
@@ -134,9 +140,11 @@ Record bframe := BFrame { bf_pfx : Z; bf_hdr : list Z; bf_blob : list Z }.
 Definition bytes_of (bf : bframe) : list Z := be32 (bf_pfx bf) ++ bf_hdr bf ++ bf_blob bf.
 Definition encode (bfs : list bframe) : list Z := flat_map bytes_of bfs.
 
+Definition hdr_ty (h : hdr) : btype := match h with HdrOk ty _ => ty | HdrBad => TyOther end.
+
 Definition abstract (bf : bframe) : frame T :=
   Frame (bf_pfx bf) (Z.of_nat (length (bf_hdr bf))) (parse_hdr (bf_hdr bf))
-        (Z.of_nat (length (bf_blob bf))) (parse_blob (bf_blob bf)).
+        (Z.of_nat (length (bf_blob bf))) (parse_blob (hdr_ty (parse_hdr (bf_hdr bf))) (bf_blob bf)).
 
 (* the prefix says how long the header is, and a datasize within the limits says how long the blob is *)
 Definition aligned (bf : bframe) : Prop :=
@@ -238,7 +246,7 @@ Proof.
   destruct (read_full ds (Z.of_nat k - 4 - bf_pfx bf)) as [e|] eqn:R3; [reflexivity|].
   assert (Eq2 : (ds =? Z.of_nat (length (bf_blob bf))) = true) by (apply Z.eqb_eq; exact Hd).
   rewrite Eq2. cbn [negb].
-  destruct (parse_blob (bf_blob bf)) as [|b]; [reflexivity|].
+  cbn [hdr_ty]. destruct (parse_blob ty (bf_blob bf)) as [|b]; [reflexivity|].
   assert (Hb : (length (bf_blob bf) <= k - 4 - length (bf_hdr bf))%nat).
   { unfold read_full in R3. destruct (ds <=? 0) eqn:E; [apply Z.leb_le in E; lia|].
     destruct (Z.of_nat k - 4 - bf_pfx bf <=? 0) eqn:E'; [discriminate|].
@@ -336,6 +344,123 @@ Proof.
   clear Hv. induction bfs as [|bf r IH]; [split; constructor|].
   inversion Hd; subst. inversion Hfr; subst. destruct (IH H2 H4) as [I1 I2].
   destruct (valid_aligned bf H3 H1) as [A1 A2]. split; constructor; assumption.
+Qed.
+
+(* ---- totality: every byte string ---- *)
+(* what the two Unmarshal oracles are assumed to do: the payload of a data block is decoded by the
+   block decoder and that of a header block by decodeOSMHeader (so the oracle answers in the
+   matching vocabulary), and the block decoder does not panic (layer L1:
+   C06/Bridge.v decode_tree_never_panics, for every message tree and every worker state) *)
+Definition parse_sound : Prop :=
+  forall ty bb b, parse_blob ty bb = BlobOk b ->
+    match ty, b_pay b with
+    | TyData, PData d => d <> DPanic
+    | TyData, PHeader _ => False
+    | TyHeader, PHeader _ => True
+    | TyHeader, PData _ => False
+    | TyOther, _ => True
+    end.
+
+Lemma bread_rest n s a rest : bread n s = inr (a, rest) ->
+  (length rest <= length s)%nat /\ (0 < n -> Z.of_nat (length rest) = Z.of_nat (length s) - n).
+Proof.
+  unfold bread. destruct (n <=? 0) eqn:E0.
+  - intros H. inversion H; subst. split; [lia|]. apply Z.leb_le in E0. lia.
+  - apply Z.leb_gt in E0. destruct s as [|x s']; [discriminate|].
+    destruct (Z.of_nat (length (x :: s')) <? n) eqn:E1; [discriminate|].
+    apply Z.ltb_ge in E1. intros H. inversion H; subst. rewrite skipn_length. split; lia.
+Qed.
+
+Lemma brfb_ok v s ty b rest n : b_read_file_block v s = BOk ty b rest n ->
+  (length rest < length s)%nat /\ exists bb, parse_blob ty bb = BlobOk b.
+Proof.
+  unfold b_read_file_block.
+  destruct (bread 4 s) as [e|[pre s1]] eqn:B1; [discriminate|].
+  destruct (be32_dec pre >=? maxBlobHeaderSize); [discriminate|].
+  destruct (bread (be32_dec pre) s1) as [e|[hb s2]] eqn:B2; [discriminate|].
+  destruct (parse_hdr hb) as [|ty' ds]; [discriminate|].
+  destruct (ds >=? maxBlobSize); [discriminate|].
+  destruct (ds <? 0); [destruct (v_neg_datasize_panics v); discriminate|].
+  destruct (bread ds s2) as [e|[bb s3]] eqn:B3; [discriminate|].
+  destruct (parse_blob ty' bb) as [|b'] eqn:Pb; [discriminate|].
+  intros H. inversion H; subst.
+  destruct (bread_rest _ _ _ _ B1) as [_ L1]. specialize (L1 ltac:(lia)).
+  destruct (bread_rest _ _ _ _ B2) as [L2 _]. destruct (bread_rest _ _ _ _ B3) as [L3 _].
+  split; [lia|]. exists bb. exact Pb.
+Qed.
+
+Lemma brfb_no_panic s : b_read_file_block current s <> BPanic.
+Proof.
+  unfold b_read_file_block.
+  destruct (bread 4 s) as [e|[pre s1]]; [discriminate|].
+  destruct (be32_dec pre >=? maxBlobHeaderSize); [discriminate|].
+  destruct (bread (be32_dec pre) s1) as [e|[hb s2]]; [discriminate|].
+  destruct (parse_hdr hb) as [|ty' ds]; [discriminate|].
+  destruct (ds >=? maxBlobSize); [discriminate|].
+  destruct (ds <? 0); [cbn; discriminate|].
+  destruct (bread ds s2) as [e|[bb s3]]; [discriminate|].
+  destruct (parse_blob ty' bb); discriminate.
+Qed.
+
+Definition settled (o : outcome) : Prop := o = Done \/ o = Failed.
+
+Lemma of_err_settled e : settled (out (@of_err T e)).
+Proof. destruct e; [left|right|right]; reflexivity. Qed.
+
+Lemma decode_data_sound (b : blob T) bb : parse_sound -> parse_blob TyData bb = BlobOk b ->
+  decode_data current b = SErr \/ exists objs, decode_data current b = SObjs objs.
+Proof.
+  intros PS Pb. specialize (PS _ _ _ Pb). unfold decode_data.
+  pose proof (get_data_no_panic 0 (b_enc b)) as NP. pose proof (get_data_no_hang 0 (b_enc b)) as NH.
+  destruct (get_data current 0 (b_enc b)); try contradiction; [|left; reflexivity].
+  destruct (b_pay b) as [h|[objs| |]]; try contradiction.
+  - right. exists objs. reflexivity.
+  - left. reflexivity.
+Qed.
+
+Lemma decode_header_sound (b : blob T) bb : parse_sound -> parse_blob TyHeader bb = BlobOk b ->
+  decode_header current b = SErr \/ exists objs, decode_header current b = SObjs objs.
+Proof.
+  intros PS Pb. specialize (PS _ _ _ Pb). unfold decode_header.
+  pose proof (get_data_no_panic 0 (b_enc b)) as NP. pose proof (get_data_no_hang 0 (b_enc b)) as NH.
+  destruct (get_data current 0 (b_enc b)); try contradiction; [|left; reflexivity].
+  destruct (b_pay b) as [[|[|]]|d]; try contradiction.
+  - left. reflexivity.
+  - right. exists []. reflexivity.
+  - left. reflexivity.
+Qed.
+
+(* the fuel given by [b_scan] is never used up, and no other branch leaves {Done, Failed} *)
+Lemma b_loop_total : parse_sound -> forall fuel s off,
+  (length s < fuel)%nat -> settled (out (b_loop current fuel s off)).
+Proof.
+  intros PS. induction fuel as [|fuel IH]; intros s off Hf; [lia|].
+  cbn [b_loop]. pose proof (brfb_no_panic s) as NP.
+  destruct (b_read_file_block current s) as [e| |ty b rest n] eqn:R.
+  - apply of_err_settled.
+  - contradiction.
+  - destruct (brfb_ok _ _ _ _ _ _ R) as [Hl [bb Pb]].
+    destruct ty; try (right; reflexivity).
+    destruct (decode_data_sound b bb PS Pb) as [E|[objs E]]; rewrite E.
+    + right. reflexivity.
+    + cbn [deliver out]. apply IH. lia.
+Qed.
+
+Theorem b_scan_total : parse_sound -> forall s, settled (out (b_scan current s)).
+Proof.
+  intros PS s. unfold b_scan. pose proof (brfb_no_panic s) as NP.
+  destruct (b_read_file_block current s) as [e| |ty b rest n] eqn:R.
+  - apply of_err_settled.
+  - contradiction.
+  - destruct (brfb_ok _ _ _ _ _ _ R) as [Hl [bb Pb]].
+    destruct ty; cbn [v_first_other_is_data current].
+    + destruct (decode_header_sound b bb PS Pb) as [E|[objs E]]; rewrite E.
+      * right. reflexivity.
+      * apply b_loop_total; [exact PS|lia].
+    + destruct (decode_data_sound b bb PS Pb) as [E|[objs E]]; rewrite E.
+      * right. reflexivity.
+      * cbn [deliver out]. apply b_loop_total; [exact PS|lia].
+    + right. reflexivity.
 Qed.
 
 End Bytes.
